@@ -118,6 +118,62 @@ pub fn check_context(trace: u128, span: u64, sampled: bool) -> Vec<Viol> {
             out.push(v("encode-wrong-fields", format!("encode(({:x},{:x},{})) = {:?} denotes ({:x},{:x},{})", trace, span, sampled, s, t, sp, sa)));
         }
     }
+    // every other way to the same context and to its header gives the same text
+    let routes = catch_unwind(|| {
+        #[allow(deprecated)]
+        {
+            let base = SpanContext::new(TraceId(trace), SpanId(span));
+            let mut r: Vec<(&'static str, String)> = vec![];
+            r.push(("sampled() set twice", base.sampled(!sampled).sampled(sampled).encode_w3c_traceparent()));
+            let mut lit = SpanContext::new(TraceId(0), SpanId(0));
+            lit.trace_id = TraceId(trace);
+            lit.span_id = SpanId(span);
+            lit.sampled = sampled;
+            r.push(("fields assigned", lit.encode_w3c_traceparent()));
+            // the deprecated entry point: the flag passed to it is the flag of the header, whatever
+            // the context's own flag is
+            r.push(("encode_w3c_traceparent_with_sampled on a sampled context", base.sampled(true).encode_w3c_traceparent_with_sampled(sampled)));
+            r.push(("encode_w3c_traceparent_with_sampled on an unsampled context", base.sampled(false).encode_w3c_traceparent_with_sampled(sampled)));
+            if let Some(d) = SpanContext::decode_w3c_traceparent(&base.sampled(sampled).encode_w3c_traceparent()) {
+                r.push(("re-encoded after decoding", d.encode_w3c_traceparent()));
+                r.push(("decoded, then encode_w3c_traceparent_with_sampled", d.sampled(!sampled).encode_w3c_traceparent_with_sampled(sampled)));
+            }
+            r
+        }
+    });
+    match routes {
+        Err(_) => out.push(v("encode-panic", format!("an encoding route panicked for ({:x},{:x},{})", trace, span, sampled))),
+        Ok(rs) => {
+            for (what, text) in rs {
+                if text != s {
+                    out.push(v("encode-route-differs", format!("({:x},{:x},{}): {} gives {:?}, encode_w3c_traceparent of the same context gives {:?}", trace, span, sampled, what, text, s)));
+                }
+            }
+        }
+    }
+    out
+}
+
+/// generated ids and contexts (`random()`, `Default`) are ordinary values: they round-trip too
+pub fn check_generated_values() -> Vec<Viol> {
+    let mut out = vec![];
+    let r = catch_unwind(|| {
+        let c = SpanContext::random();
+        let t = TraceId::random();
+        let s = SpanId::random();
+        let d = TraceId::default();
+        let e = SpanId::default();
+        vec![(c.trace_id.0, c.span_id.0, c.sampled), (t.0, s.0, true), (d.0, e.0, false)]
+    });
+    match r {
+        Err(_) => out.push(v("encode-panic", "random()/default() of TraceId, SpanId or SpanContext panicked".to_string())),
+        Ok(vals) => {
+            for (t, s, f) in vals {
+                out.extend(check_context(t, s, f).into_iter().filter(|x| x.sig != "encode-route-differs" || true));
+                out.extend(check_ids(t, s));
+            }
+        }
+    }
     out
 }
 
